@@ -99,6 +99,41 @@ def _init_worker():
         ctypes.CDLL("libc.so.6").prctl(1, signal.SIGKILL)
     except Exception:
         pass
+    # numba's on-disk cache is not safe against concurrent writers (a corrupted entry segfaults): every worker gets a
+    # private copy of the pre-warmed base cache and writes only there
+    try:
+        import shutil, atexit
+        base = os.environ.get("NUMBA_CACHE_DIR")
+        if base:
+            priv = os.path.join(os.path.dirname(base), "numba_w", str(os.getpid()))
+            if os.path.isdir(base):
+                shutil.copytree(base, priv, dirs_exist_ok=True)
+            else:
+                os.makedirs(priv, exist_ok=True)
+            os.environ["NUMBA_CACHE_DIR"] = priv
+            atexit.register(shutil.rmtree, priv, True)
+    except Exception:
+        pass
+
+
+def _warm(modname):
+    """Compile the numba functions a check needs ONCE, serially, into the base cache (under a file lock)."""
+    import fcntl
+    base = os.environ.get("NUMBA_CACHE_DIR")
+    if not base:
+        return
+    os.makedirs(base, exist_ok=True)
+    marker = os.path.join(base, ".warm_" + modname.split(".")[-1])
+    if os.path.exists(marker):
+        return
+    with open(os.path.join(os.path.dirname(base), "numba.lock"), "w") as lk:
+        fcntl.flock(lk, fcntl.LOCK_EX)
+        if not os.path.exists(marker):
+            code = "import importlib; m = importlib.import_module(%r); m.warm()" % modname
+            r = subprocess.run([PY, "-c", code], stdout=subprocess.PIPE, stderr=subprocess.STDOUT, text=True)
+            if r.returncode != 0:
+                print("NOTE: numba warm-up failed:\n" + r.stdout[-1500:])
+            open(marker, "w").close()
 
 
 def _run_pool(modname, shards, nproc, tier):
@@ -180,6 +215,8 @@ def run_check(pid, tier, seed, nproc=None, only=None):
     modname = "vt.props." + pid.lower()
     mod = importlib.import_module(modname)
     t0 = time.time()
+    if hasattr(mod, "warm"):
+        _warm(modname)
     shards = mod.plan(tier, seed)
     if only is not None:
         shards = [s for i, s in enumerate(shards) if i in only]
